@@ -251,6 +251,54 @@ struct C05 : Property
 		}
 		return false;
 	}
+	void collect(struct json_object *from, std::set<void *> &seen, bool *dag = nullptr)
+	{
+		std::vector<struct json_object *> todo{from};
+		while (!todo.empty())
+		{
+			struct json_object *o = todo.back();
+			todo.pop_back();
+			if (!o)
+				continue;
+			if (!seen.insert(o).second)
+			{
+				if (dag)
+					*dag = true; // reached twice: shared node
+				continue;
+			}
+			enum json_type t = json_object_get_type(o);
+			if (t == json_type_array)
+				for (size_t i = 0; i < json_object_array_length(o); i++)
+					todo.push_back(json_object_array_get_idx(o, i));
+			else if (t == json_type_object)
+			{
+				struct json_object_iterator it = json_object_iter_begin(o), end = json_object_iter_end(o);
+				while (!json_object_iter_equal(&it, &end))
+				{
+					todo.push_back(json_object_iter_peek_value(&it));
+					json_object_iter_next(&it);
+				}
+			}
+		}
+	}
+	// do the two trees have a node in common?  (then inserting one somewhere inside the other may close a cycle)
+	bool intersects(struct json_object *a, struct json_object *b)
+	{
+		std::set<void *> sa, sb;
+		collect(a, sa);
+		collect(b, sb);
+		for (void *n : sa)
+			if (sb.count(n))
+				return true;
+		return false;
+	}
+	bool is_tree(struct json_object *a)
+	{
+		std::set<void *> s;
+		bool dag = false;
+		collect(a, s, &dag);
+		return !dag;
+	}
 	// register nodes that appeared (constructors, parser, copies) and install tracking on part of them
 	void adopt_new_nodes(State &s, const Graph &g)
 	{
@@ -628,8 +676,8 @@ struct C05 : Property
 				const char *path = paths[op.arg(2) % 8];
 				if (!root || (!null_value && !v) || (op.arg(0) % 8 == op.arg(1) % 8 && !null_value))
 					skipped = true;
-				else if (v && reaches(v, root))
-					skipped = true;
+				else if (v && intersects(v, root))
+					skipped = true; // the path may resolve to a container that is (inside) v, e.g. "/k2/-" where k2 is v or shares a node with v: a cycle, forbidden to callers
 				else
 				{
 					size_t ri = (size_t)(op.arg(0) < 0 ? -op.arg(0) : op.arg(0)) % s.handles.size();
@@ -669,6 +717,8 @@ struct C05 : Property
 				int slot = free_slot(op.arg(1) < 0 ? 2 : op.arg(1));
 				if (!base || (copy_from && slot < 0))
 					skipped = true;
+				else if (!is_tree(base))
+					skipped = true; // move/copy inside a document that shares nodes between branches can close a cycle: JSON patch is defined on trees
 				else
 				{
 					std::string t = std::string(patches[op.arg(2) % 8]) + std::string(1, '\0');
